@@ -313,7 +313,7 @@ func RunProperty(id, tier string, seed uint64) int {
 			cp := filepath.Join(dir, "cfg.json")
 			os.WriteFile(cp, b, 0o666)
 			e := &Env{GoCache: s.Env.GoCache, WireBin: s.Env.WireBin}
-			r := e.Run(dir, to, []string{"VERIF_DIR=" + VerifDir(), "VERIF_REPO=" + RepoDir(), "GOFLAGS=-mod=mod"}, self, "child", cp)
+			r := e.Run(dir, to, []string{"VERIF_DIR=" + VerifDir(), "VERIF_REPO=" + RepoDir(), "VERIF_OUT=" + OutDir(), "VERIF_KEEP=" + os.Getenv("VERIF_KEEP")}, self, "child", cp)
 			res := newShardResult()
 			rb, err := os.ReadFile(filepath.Join(dir, "result.json"))
 			switch {
@@ -396,7 +396,7 @@ func RunProperty(id, tier string, seed uint64) int {
 	ev := Evidence{PropertyID: id, Tier: tier, Seed: int64(seed & 0x7fffffffffffffff), Level: p.Level, Coverage: cov,
 		Assumptions: p.Assumptions, WallS: wall, Violations: len(total.Violations)}
 	eb, _ := json.MarshalIndent(ev, "", " ")
-	edir := filepath.Join(VerifDir(), "evidence")
+	edir := filepath.Join(OutDir(), "evidence")
 	os.MkdirAll(edir, 0o777)
 	if err := os.WriteFile(filepath.Join(edir, id+".json"), append(eb, '\n'), 0o666); err != nil {
 		fmt.Printf("INCONCLUSIVE property=%s cannot write evidence: %v\n", id, err)
